@@ -120,6 +120,48 @@ def oracle_bin(ctx, n, mode, param, steps, final, log, scen, rep):
     return None
 
 
+def cascade_case(ctx, n, req, k, verdicts=None):
+    """Removing a range takes the next k instances with it (dependent instances): the driver's estimate
+    'reported - chunk' is then too high, a later request exceeds what the tool holds, the tool clamps it,
+    warns and reports the true count.  The driver must keep working from the reported count."""
+    scen = setup(ctx, {'cascade': k})
+    path = os.path.join(ctx.tmp, 'tc.cc')
+    with open(path, 'w') as f:
+        f.write('head\n' + ''.join(f'I{i}\nx\n' for i in range(n)))
+    pass_ = mk_pass('bin', 'c++11')
+    reqs = set(req)
+    asked = []
+
+    def interesting(c):
+        if verdicts is None:
+            return reqs <= set(present(open(c, 'rb').read()))
+        asked.append(1)
+        return verdicts[len(asked) - 1] if len(asked) <= len(verdicts) else False
+    try:
+        steps, final, reason = run_ref(pass_, path, interesting, ctx.tmp,
+                                       observe=lambda st: (st.index, st.end(), st.instances), max_steps=(n + 2) * (n + 3) + 20)
+    except Exception as e:
+        return f'the driver raised {type(e).__name__}: {e} (a clamped request: the tool warns before it reports the count)'
+    log = [r for r in read_log(scen) if not r['query']]
+    if reason == 'exception':
+        return f'the driver raised {steps[-1].result} ({steps[-1].extra.get("exc") if steps[-1].extra else ""})'
+    if reason == 'max_steps':
+        return 'the pass did not finish within the proved bound'
+    if not reqs <= set(present(final)):
+        return f'final instances {present(final)} lost required {sorted(reqs)}'
+    for st, r in zip(steps, log):
+        a = dict(x[2:].partition('=')[::2] for x in r['argv'] if x.startswith('--'))
+        c, t = int(a['counter']), int(a['to-counter'])
+        if not (1 <= c <= t <= st.state_repr[2]):
+            return f'requested --counter={c} --to-counter={t} with a cursor holding {st.state_repr[2]} instances'
+    for a_, b_, r in zip(steps, steps[1:], log):
+        if a_.accepted:
+            i, e, inst = a_.state_repr
+            if b_.state_repr[2] != r['seen'] - (e - i):
+                return f'after accepting ({i + 1},{e}) the cursor holds {b_.state_repr[2]} instances; the tool had reported {r["seen"]}, minus the chunk {e - i}'
+    return None
+
+
 def std_case(ctx, caps, faults, pass_=None):
     scen = setup(ctx, {'caps': caps, 'query_faults': faults, 'sleep': 0.8})
     path = os.path.join(ctx.tmp, 'tc.cc')
@@ -235,6 +277,26 @@ def explore(ctx):
         if why:
             ctx.violation('best-standard', why, {'kind': 'std', 'caps': caps, 'faults': faults})
         best_cases.append(('[' + '; '.join(f'({i}, ({c})%Z)' for i, c in enumerate(counts)) + ']', [1, chosen, counts[chosen]] if chosen >= 0 else [-1, -1]))
+    # dependent instances (the tool removes more than asked): clamped requests, warnings before the count line
+    for n in ((4, 6) if ctx.quick() else (3, 4, 5, 6, 8, 10)):
+        for k in (1, 2):
+            for req in ([], [0], [n - 1], [1, n - 2]):
+                why = cascade_case(ctx, n, req, k)
+                ctx.evaluations += 1
+                ctx.count('clangbinarysearch:dependent-instances')
+                ctx.nontriv(('cascade', n, k, tuple(req)))
+                if why:
+                    ctx.violation('clang-driving-dependent-instances', f'N={n}, every removal takes the next {k} instance(s) with it, required {req}: {why}',
+                                  {'kind': 'cascade', 'n': n, 'k': k, 'req': req})
+            for _ in range(4 if ctx.quick() else 20):
+                vs = [rnd.random() < 0.6 for _ in range(12)]
+                vs[0] = False
+                why = cascade_case(ctx, n, [], k, verdicts=vs)
+                ctx.evaluations += 1
+                ctx.count('clangbinarysearch:dependent-instances:verdict-sequences')
+                if why:
+                    ctx.violation('clang-driving-dependent-instances', f'N={n}, every removal takes the next {k} instance(s) with it, verdicts {vs}: {why}',
+                                  {'kind': 'cascade', 'n': n, 'k': k, 'req': [], 'verdicts': vs})
     # the same pass object started again on an input whose best standard differs (next file of a multi-file run,
     # the same file after other passes): the standard must be detected afresh by every new()
     for _ in range(3 if ctx.quick() else 20):
@@ -259,6 +321,12 @@ def explore(ctx):
 
 def replay(ctx, payload):
     r = payload['replay']
+    if r.get('kind') == 'cascade':
+        why = cascade_case(ctx, r['n'], r['req'], r['k'], verdicts=r.get('verdicts'))
+        print('replay:', why)
+        if why:
+            ctx.violation('clang-driving-dependent-instances', why, r)
+        return
     if r['kind'] in ('mono', 'seq'):
         steps, final, reason, log, _ = run_bin(ctx, r['n'], r['kind'], r['param'], r.get('scen'))
         why = oracle_bin(ctx, r['n'], r['kind'], r['param'], steps, final, log, r.get('scen') or {}, None)
